@@ -28,7 +28,7 @@ PROPS = {
               ' Also: the index up to which a message is taken to have verified the log is derived from the message, never from the own log end; the journal head is dropped exactly up to the position the finished dump covers; log, applied / commit / match / next index are written only by their protocol owners.',
               ['agreement of two nodes under all schedules (global argument over interleavings, nextIndex/matchIndex dynamics, snapshot timing)'],
               'CFG reachability with obligation nodes removed (must-pass-through), path-sensitive must-facts, who-may-call'),
-    'C02': _p(['R-cb-linear', 'R-success-guard', 'R-disposition', 'R-commit-subscription', 'R-request-id-unique', 'R-commit-gate', 'R-owners-callbacks', 'L-undefined-name'],
+    'C02': _p(['R-cb-linear', 'R-success-guard', 'R-disposition', 'R-commit-subscription', 'R-request-id-unique', 'R-commit-gate', 'R-owners-callbacks', 'L-undefined-name', 'R-err-helper-delivers'],
               'callback linearity (a callback taken from the queue or a waiting table is consumed exactly once on every path); SUCCESS only under '
               'stored-term == applied-term with the dispatch result of that entry; exactly one disposition (append / forward / error) per dequeued command; '
               'a callback waits at exactly the (index, term) its command was appended with; request ids never reused.'
